@@ -300,9 +300,25 @@ pub mod ecdsa {
         pub fn to_bytes(&self) -> GenericArray<u8, U96> {
             GenericArray::clone_from_slice(&self.b)
         }
+        /// ECDSA malleability: (r, n - s) verifies whenever (r, s) does.  The model's stand-in for
+        /// s -> n - s is the bitwise complement of the 48 s bytes (an involution that flips every bit, so
+        /// no single-bit corruption reaches it); "high S" is the top bit of s.
         pub fn normalize_s(&self) -> Option<Self> {
-            None
+            if self.b[48] & 0x80 != 0 {
+                Some(Signature { b: twin(&self.b) })
+            } else {
+                None
+            }
         }
+    }
+    pub(crate) fn twin(b: &[u8; 96]) -> [u8; 96] {
+        let mut t = *b;
+        let mut i = 48;
+        while i < 96 {
+            t[i] = !b[i];
+            i += 1;
+        }
+        t
     }
     fn sig_of(pk: &[u8; 49], digest: &Transcript) -> [u8; 96] {
         let mut t1 = Transcript::new();
@@ -318,9 +334,12 @@ pub mod ecdsa {
         let mut b = [0u8; 96];
         b[..48].copy_from_slice(&r[..48]);
         b[48..].copy_from_slice(&s[..48]);
-        // a produced signature consists of valid scalars
+        // a produced signature consists of valid scalars, and so does its twin
         #[cfg(kani)]
-        kani::assume(scalar_ok(&b[..48]) && scalar_ok(&b[48..]));
+        {
+            let t = twin(&b);
+            kani::assume(scalar_ok(&b[..48]) && scalar_ok(&b[48..]) && scalar_ok(&t[48..]));
+        }
         b
     }
 
@@ -343,14 +362,18 @@ pub mod ecdsa {
     }
     impl<D: HasTranscript> signature::DigestVerifier<D, Signature> for VerifyingKey {
         fn verify_digest(&self, digest: D, signature: &Signature) -> Result<(), Error> {
+            // accepts the ideal signature and its (r, n - s) twin, as ECDSA verification does
             let want = sig_of(&self.c, digest.transcript());
+            let want2 = twin(&want);
             let mut eq = true;
+            let mut eq2 = true;
             let mut i = 0;
             while i < 96 {
                 eq &= want[i] == signature.b[i];
+                eq2 &= want2[i] == signature.b[i];
                 i += 1;
             }
-            if eq { Ok(()) } else { Err(Error) }
+            if eq || eq2 { Ok(()) } else { Err(Error) }
         }
     }
 
